@@ -3,9 +3,10 @@ Shape S: every sequence (up to a depth bound) of {local close (with/without
 code), local write, peer close frame (empty / code / code+reason / invalid
 UTF-8 reason / 1-byte payload), peer data, peer pong, peer EOF at a frame
 boundary or mid-frame, gated on_message completion, timer firing}, for both
-roles (plus a client that consumes with read_message() only at the end) and with/without keep-alive pings, on the real protocol over a FakeSocket
+roles (plus a client that consumes with read_message() only at the end; plus sessions with permessage-deflate negotiated; plus sessions whose transport stops accepting data so that a write is in flight, with the peer resetting the connection as an additional event) and with/without keep-alive pings, on the real protocol over a FakeSocket
 with virtual time; oracle = a small reference of the closing handshake."""
 import asyncio
+import errno
 import struct
 
 from mc.core import Check, h
@@ -13,7 +14,7 @@ from mc import devex
 from mc.vloop import World
 from mc import wsh
 
-EVENTS = ["local_close", "local_close_code", "local_write", "peer_close_empty", "peer_close_1000",
+EVENTS = ["local_write_blocked", "peer_reset", "local_close", "local_close_code", "local_write", "peer_close_empty", "peer_close_1000",
           "peer_close_reason", "peer_close_bad_utf8", "peer_close_1byte", "peer_data", "peer_pong", "peer_eof",
           "peer_half_frame_eof", "timer", "release", "tick"]
 PEER_CLOSES = {"peer_close_empty": b"", "peer_close_1000": struct.pack("!H", 1000),
@@ -21,13 +22,15 @@ PEER_CLOSES = {"peer_close_empty": b"", "peer_close_1000": struct.pack("!H", 100
                "peer_close_bad_utf8": struct.pack("!H", 4001) + b"\xff\xfe", "peer_close_1byte": b"\x03"}
 
 
-def run(ch, role, pings, gated, depth, preamble=()):
+def run(ch, role, pings, gated, depth, preamble=(), deflate=False, blockmode=False):
+    """deflate: permessage-deflate negotiated (peer data frames are compressed); blockmode: the transport does not
+    accept data (EAGAIN) from the first event on, so local writes stay in flight, and the peer may reset."""
     from tornado.websocket import WebSocketClosedError
     with World() as w:
         settings = {"websocket_ping_interval": 10, "websocket_ping_timeout": 4} if pings else {}
         gates = []
         if role == "server":
-            s = wsh.ServerSession(w, settings=settings)
+            s = wsh.ServerSession(w, settings=settings, **({"offer": "permessage-deflate", "compression_options": {}} if deflate else {}))
             if gated:
                 def hook(hd, m):
                     f = asyncio.Future()
@@ -36,7 +39,8 @@ def run(ch, role, pings, gated, depth, preamble=()):
                 s.rec["on_message"] = hook
         else:
             kw = {"ping_interval": 10, "ping_timeout": 4} if pings else {}
-            s = wsh.ClientSession(w, connect_kwargs=kw, use_queue=(role == "clientq"))
+            s = wsh.ClientSession(w, connect_kwargs=kw, use_queue=(role == "clientq"),
+                                  **({"compression_options": {}, "response_ext": "permessage-deflate"} if deflate else {}))
         try:
             if not s.ok:
                 return {"handshake_failed": True}
@@ -44,6 +48,7 @@ def run(ch, role, pings, gated, depth, preamble=()):
             frames_log = []     # (step, frame dict)
             problems = []
             st = {"peer_closed": False, "peer_eof": False, "n_peer_close": 0, "local_close": 0, "data_sent": 0}
+            inflight = []       # futures of writes the transport has not accepted yet
 
             def local(fn):
                 try:
@@ -52,6 +57,8 @@ def run(ch, role, pings, gated, depth, preamble=()):
                         w.pump()
                         if r.done() and not r.cancelled() and r.exception() is not None:
                             return "raised:" + type(r.exception()).__name__
+                        if not r.done():
+                            inflight.append(r)      # still in flight: its outcome is judged at the end
                     return "ok"
                 except WebSocketClosedError:
                     return "raised:WebSocketClosedError"
@@ -75,6 +82,10 @@ def run(ch, role, pings, gated, depth, preamble=()):
                         continue
                     if e == "tick" and st.get("ticks", 0) >= 2:
                         continue
+                    if e in ("local_write_blocked", "peer_reset") and not blockmode:
+                        continue
+                    if e == "local_write_blocked" and len(inflight) >= 2:
+                        continue
                     enabled.append(e)
                 if not enabled:
                     break
@@ -94,12 +105,30 @@ def run(ch, role, pings, gated, depth, preamble=()):
                     res = local(lambda: target.close(1001, "bye"))
                 elif ev == "local_write":
                     res = local(lambda: target.write_message("w%d" % step))
+                elif ev == "local_write_blocked":
+                    sk = s.conn.sock if role == "server" else s.sock
+                    sk.blocked = True
+                    try:
+                        f = target.write_message("B%d" % step * 50)
+                        if asyncio.isfuture(f):
+                            inflight.append(f)
+                        res = "ok"
+                    except WebSocketClosedError:
+                        res = "raised:WebSocketClosedError"
+                    except Exception as e:
+                        res = "raised:" + type(e).__name__
+                elif ev == "peer_reset":
+                    st["peer_eof"] = True
+                    (s.conn.sock if role == "server" else s.sock).feed_error(OSError(errno.ECONNRESET, "reset by peer"))
                 elif ev in PEER_CLOSES:
                     st["n_peer_close"] += 1
                     s.feed(s.frame(True, 8, PEER_CLOSES[ev]))
                 elif ev == "peer_data":
                     st["data_sent"] += 1
-                    s.feed(s.frame(True, 1, b"d%d" % step))
+                    if s.deflate is not None:
+                        s.feed(s.frame(True, 1, s.deflate.compress(b"d%d" % step), rsv=0x40))
+                    else:
+                        s.feed(s.frame(True, 1, b"d%d" % step))
                 elif ev == "peer_pong":
                     s.feed(s.frame(True, 10, b""))
                 elif ev == "peer_eof":
@@ -173,11 +202,22 @@ def run(ch, role, pings, gated, depth, preamble=()):
             msgs = list(s.rec["messages"])
             if role == "server":
                 closes = list(s.rec["closes"])
+            elif role == "client":
+                closes = list(s.rec["closes"])          # code / reason as visible inside the close notification
+                msgs = [m for m in msgs if m is not None]
             else:
                 closes = [(s.conn.close_code, s.conn.close_reason)] * msgs.count(None)
                 msgs = [m for m in msgs if m is not None]
-            return {"queue_pending": queue_pending, "t_close": st.get("t_close"), "closed_at": st.get("closed_at"),
-                    "gated": gated or role == "clientq", "trace": trace, "frames": frames_log, "closed": s.closed, "closed_before_timers": closed_before_timers,
+            inflight_out = []
+            for f in inflight:
+                if not f.done():
+                    inflight_out.append("pending")
+                elif f.cancelled():
+                    inflight_out.append("cancelled")
+                else:
+                    inflight_out.append(type(f.exception()).__name__ if f.exception() is not None else "ok")
+            return {"inflight": inflight_out, "blockmode": blockmode, "queue_pending": queue_pending, "t_close": st.get("t_close"), "closed_at": st.get("closed_at"),
+                    "gated": gated or role == "clientq" or blockmode, "trace": trace, "frames": frames_log, "closed": s.closed, "closed_before_timers": closed_before_timers,
                     "closes": closes, "messages": msgs, "late_write": late_write,
                     "errs": [str(c.get("message"))[:100] for c in w.loop_errors()],
                     "logs": [(r[1], r[2][:70], r[3]) for r in w.logs.records if r[1] in ("ERROR", "CRITICAL")]}
@@ -207,7 +247,7 @@ def judge(role, pings, o):
     cands = local_steps + ([ping_close] if ping_close is not None else [])
     first_local = min(cands) if cands else None
     first_peer = next((i for i, e in enumerate(evs) if e in PEER_CLOSES), None)
-    first_eof = next((i for i, e in enumerate(evs) if e in ("peer_eof", "peer_half_frame_eof")), None)
+    first_eof = next((i for i, e in enumerate(evs) if e in ("peer_eof", "peer_half_frame_eof", "peer_reset")), None)
     peer_kind = evs[first_peer] if first_peer is not None else None
     valid_peer_close = peer_kind in ("peer_close_empty", "peer_close_1000", "peer_close_reason")
     # a peer close frame that arrives after the connection was already torn down is never seen
@@ -274,6 +314,11 @@ def judge(role, pings, o):
     if o.get("t_close") is not None and o.get("closed_at") is not None and o["closed_at"] > o["t_close"] + 5.0 + 1e-6:
         bad.append(("teardown-later-than-closing-timeout", "close frame sent at t=%.3f, socket closed at t=%.3f (> 5 s later)"
                     % (o["t_close"], o["closed_at"])))
+    for r in o.get("inflight", ()):
+        if r not in ("ok", "WebSocketClosedError") and not (r == "pending" and not o["closed"]):
+            bad.append(("in-flight-write:%s" % r, "a write_message that was in flight when the connection went away ended as %s "
+                        "(expected WebSocketClosedError)" % r))
+            break
     if o.get("queue_pending") and o["closed"]:
         bad.append(("read_message-never-told-about-the-close", "the connection is closed but read_message() stays pending "
                     "after delivering %r" % (o["messages"],)))
@@ -313,21 +358,27 @@ class C16(Check):
                         # after the keep-alive ping has timed out (Tornado closed on its own)
                         for first in range(len(EVENTS)):
                             parts.append((role, pings, gated, first, ("timer", "timer")))
+        for role in ("server", "client"):
+            for first in range(len(EVENTS)):
+                parts.append((role, False, False, first, (), "deflate"))                       # permessage-deflate negotiated
+                parts.append((role, False, False, first, ("local_write_blocked",), "block"))   # a write is in flight
         return parts
 
     def run_partition(self, part, tier, st):
-        role, pings, gated, first, preamble = part
+        role, pings, gated, first, preamble = part[:5]
+        mode = part[5] if len(part) > 5 else ""
         depth = 3 if tier == "quick" else 5
-        if gated or pings:
+        if gated or pings or mode:
             depth = 3 if tier == "quick" else 4
+        kw = {"deflate": mode == "deflate", "blockmode": mode == "block"}
 
         def harness(ch):
-            return run(ch, role, pings, gated, depth, preamble)
+            return run(ch, role, pings, gated, depth, preamble, **kw)
 
         def on_exec(ch, o):
             st.ev()
             st.transitions += len(ch.trace)
-            key = h((role, pings, gated, preamble, tuple(ch.choices())))
+            key = h((role, pings, gated, preamble, mode, tuple(ch.choices())))
             st.states.add(key)
             evs = [t[0] for t in o.get("trace", [])]
             if any("close" in e or "eof" in e for e in evs):
@@ -337,12 +388,12 @@ class C16(Check):
                 st.sample({"role": role, "pings": pings, "schedule": evs, "frames_sent": [(f[0], f[1]) for f in o["frames"]],
                            "notified": o["closes"]})
             for sig, msg in judge(role, pings, o):
-                st.violation("%s:%s" % (role, sig), "role=%s pings=%r gated=%r schedule %r: %s" % (role, pings, gated, evs, msg),
+                st.violation("%s:%s" % (role, sig), "role=%s pings=%r gated=%r %s schedule %r: %s" % (role, pings, gated, mode, evs, msg),
                              {"role": role, "pings": pings, "gated": gated, "depth": depth, "choices": ch.choices(),
-                              "preamble": list(preamble)})
+                              "preamble": list(preamble), "mode": mode})
         # partition on the first choice: explore only schedules starting with `first`
         probe = devex.Chooser()
-        run(probe, role, pings, gated, 1, preamble)
+        run(probe, role, pings, gated, 1, preamble, **kw)
         n0 = probe.trace[0][0] if probe.trace else 0
         if first >= n0:
             return
@@ -351,7 +402,7 @@ class C16(Check):
 
     def replay(self, case):
         o = run(devex.Chooser(case["choices"]), case["role"], case["pings"], case["gated"], case["depth"],
-                tuple(case.get("preamble", ())))
+                tuple(case.get("preamble", ())), deflate=case.get("mode") == "deflate", blockmode=case.get("mode") == "block")
         return "%r\nverdict %r" % (o, judge(case["role"], case["pings"], o))
 
 
